@@ -42,7 +42,8 @@ if scratch:
     subprocess.run(["git", "-C", verif, "checkout", "--", "."], check=True)
     subprocess.run(["git", "-C", verif, "checkout", "--detach", vhead], check=True, capture_output=True)
     ct = os.path.join(verif, "harness", "Cargo.toml")
-    open(ct, "w").write(open(ct).read().replace('path = "/repo"', f'path = "{repo}"'))
+    text = open(ct).read().replace('path = "/repo"', f'path = "{repo}"')
+    open(ct, "w").write(text)
     import shutil
     shutil.copy("/repo/Cargo.lock", os.path.join(verif, "harness", "Cargo.lock"))
     check_root = verif
